@@ -41,6 +41,9 @@ def twin64(flow):
     return type(flow)(**kw)
 
 
+CUT = {"below": None}
+
+
 def judge_pop(pop, t, flow64, recipe, name, where, viol, counters, need_lq=True):
     x = pop["x"].astype(float)
     if x.ndim != 2 or x.shape[0] == 0:
@@ -51,6 +54,8 @@ def judge_pop(pop, t, flow64, recipe, name, where, viol, counters, need_lq=True)
     counters["rows_recomputed"] += x.shape[0]
     ref_lp = t.ref_log_prior(x)
     ref_ll = t.ref_log_like(x)
+    if CUT["below"] is not None:
+        ref_ll = np.where(x[:, 0] < CUT["below"], -np.inf, ref_ll)
     if recipe:
         ref_ll = np.where(np.isfinite(ref_lp), ref_ll, -np.inf)
     refs = [("log_prior", pop["lp"], ref_lp), ("log_likelihood", pop["ll"], ref_ll)]
@@ -124,8 +129,10 @@ def run_case(case):
     viol = []
     g = np.random.default_rng(case["seed"])
     cfg = boundary.gen_case_cfg(g)
-    shown = {k: cfg[k] for k in ("sampler", "xp", "dtype", "n", "opts", "precond", "outside_mode", "recipe", "resume")}
+    shown = {k: cfg.get(k) for k in ("sampler", "xp", "dtype", "n", "opts", "precond", "outside_mode", "recipe", "resume", "cut_below")}
     where = f"{shown}"
+    CUT["below"] = cfg.get("cut_below")
+    counters["runs_with_zero_likelihood_region"] += int(cfg.get("cut_below") is not None)
     out = boundary.execute(cfg)
     t = out["target"]
     f64 = twin64(out["flow"])
